@@ -235,6 +235,7 @@ func cmdCheck(args []string) int {
 		Secs float64
 	}{}
 	fnEstablished := map[*FnResult]bool{}
+	stalePkg := map[string]bool{}
 	var lines []string
 	var fnsUnder []string
 	assumptions := map[string]bool{}
@@ -248,6 +249,11 @@ func cmdCheck(args []string) int {
 		for _, s := range r.Stale {
 			lines = append(lines, "STALE-CONTRACT "+s)
 			est = false
+			// A contract clause that names something the code no longer has (a renamed local, a
+			// removed parameter) is dropped, not assumed: what then fails in this function, and in
+			// the functions of the same package that call it through its contract, is undecided -
+			// a harmless rename must silence, never alarm (DESIGN 3.2 rule 4).
+			stalePkg[pkgOfKey(r.Key)] = true
 		}
 		for _, a := range r.Assume {
 			assumptions[a] = true
@@ -347,7 +353,11 @@ func cmdCheck(args []string) int {
 		failedIDs = append(failedIDs, o.ID)
 		// a failing instance counts as a regression when it was proved on the pinned tree, or when
 		// it is a new instance (new return point, new occurrence) of a clause that was
-		if !haveBase || regression(o.ID) {
+		if stalePkg[pkgOfKey(rw.r.Key)] {
+			undecided = append(undecided, o.ID)
+			lines = append(lines, fmt.Sprintf("UNDECIDED obligation=%s verdict=%s (a contract of this package is stale: its clauses name something the code no longer has; not reported as a violation)", o.ID, o.Result.Verdict))
+			nProp--
+		} else if !haveBase || regression(o.ID) {
 			violations++
 			// one VIOLATION line per function; the replay file lists every failed obligation
 			violByFn[rw.r] = append(violByFn[rw.r], rw.o)
@@ -578,4 +588,14 @@ func writeEvidence(prop, tier string, seed int, results []*FnResult, outs []oblO
 	b, _ := json.MarshalIndent(ev, "", " ")
 	os.MkdirAll("/verif/evidence", 0o755)
 	os.WriteFile("/verif/evidence/"+prop+".json", append(b, '\n'), 0o644)
+}
+
+// pkgOfKey: the package part of a function key ("<import path>.<Recv>.<name>" or "<import path>.<name>").
+func pkgOfKey(k string) string {
+	i := strings.LastIndex(k, "/")
+	j := strings.Index(k[i+1:], ".")
+	if j < 0 {
+		return k
+	}
+	return k[:i+1+j]
 }
